@@ -67,8 +67,9 @@ fn m(op: usize, bound: &str, ver: &str) -> bool {
 
 /// The same laws through the public API, on arbitrary text (any tokenisation).
 pub fn h_api_laws() {
-    // thorough: only the first string grows (every law is also checked with the sides swapped)
-    let a = sym::any_str("a", "utf8", 0, sym::bound(2, 3));
+    // two characters each in both tiers: a third character did not finish within 15 minutes on 16 cores (the laws on
+    // longer versions are covered on the comparator itself by h_laws2 / h_trans and, through text, by h_two_bounds)
+    let a = sym::any_str("a", "utf8", 0, 2);
     let b = sym::any_str("b", "utf8", 0, 2);
     sym::assume(clean(&a) & clean(&b));
     let lt = m(1, &b, &a);
